@@ -502,3 +502,12 @@ mod tests {
         }
     }
 }
+
+#[cfg(cicada_verif)]
+pub mod verif_hooks {
+    use super::*;
+    pub fn expand_args(line: &str, args: &[String]) -> String { super::expand_args(line, args) }
+    pub fn is_args_in_token(token: &str) -> bool { super::is_args_in_token(token) }
+    pub fn expand_args_for_single_token(token: &str, args: &[String]) -> String { super::expand_args_for_single_token(token, args) }
+    pub fn expand_args_in_tokens(tokens: &mut types::Tokens, args: &[String]) { super::expand_args_in_tokens(tokens, args) }
+}
